@@ -328,7 +328,7 @@ let op_pm_race a =
   end
 
 (* ---------------- round 6: histories - mutable ApiUser objects, requests on keep-alive connections ---------------- *)
-(* the configuration of Perm/PmUsers.v that describes this source tree (PmFacts.pmu_cfg_tree ties it to the source facts) *)
+(* the configuration of Perm/PmUsers.v that describes this source tree (PmUsersFacts.pmu_cfg_tree ties it to the source facts) *)
 let pmu_tree : pmu_cfg = { pmu_memo = false; pmu_invalidate = false; pmu_sticky = false }
 let pmu_w : pmu_world ref = ref (pmu_world0 pmu_core0)
 let pmu_uid : int ref = ref (-1)                 (* the object the direct ops hand to the handlers (l_User) *)
@@ -465,7 +465,9 @@ let oracle_c18_case script trace =
               | Some _, None -> fail (Printf.sprintf "step=%d identity: valid-credentials-answered-401" li)
               | Some u, Some o ->
                 let earlier = match Hashtbl.find_opt uhist (pm_int_of_nat u) with Some (_ :: r) -> r | _ -> [] in
-                if List.exists (fun l -> judge l o) earlier then
+                (* another user's CURRENT list explains the answer: an identity mix-up rather than a stale list *)
+                let other = List.exists (fun i -> i <> u && judge (pmu_perms_of !ow.pmu_c i) o) !ow.pmu_c.pmu_reg in
+                if (not other) && List.exists (fun l -> judge l o) earlier then
                   fail (Printf.sprintf "step=%d connection request of the right user, but decided-on-an-earlier-permission-list" li)
                 else fail (Printf.sprintf "step=%d identity: not-decided-on-the-permissions-of-the-user-this-request-identifies" li)
               | _, _ -> ()
@@ -589,7 +591,7 @@ let oracle_c18_case script trace =
          let has = pm_spec_has !user h.ph_perm in
          if code <> "ok" then begin
            if code <> "404" && code <> "400" then fail (Printf.sprintf "step=%d attrs: unexpected-status" li)
-           else if (not has) && code <> "404" then fail (Printf.sprintf "step=%d attrs: no-permission-but-request-served" li)
+           else if (not has) && code <> "404" then fail (Printf.sprintf "step=%d attrs: no-permission-but-request-served%s" li (stale (fun u -> pm_spec_has u h.ph_perm)))
          end else begin
            let keys = match tok_val t "objs" with None -> Error "?" | Some s -> pm_parse_keys s in
            let jk = match tok_val t "joins" with None -> Error "?" | Some s -> pm_parse_jkeys s in
@@ -598,9 +600,10 @@ let oracle_c18_case script trace =
            (match keys, jk, ek, hid with
             | Ok o, Ok j, Ok e, Some hn ->
               let ob = { pv_has = has; pv_cons = None; pv_res = Some o } in
-              if not has then fail (Printf.sprintf "step=%d attrs: no-permission-but-request-served" li)
+              let st () = stale (fun u -> let hs = pm_spec_has u h.ph_perm in hs && pm_oracle_q !glob u h.ph_perm h.ph_tys h.ph_q !inv { ob with pv_has = hs }) in
+              if not has then fail (Printf.sprintf "step=%d attrs: no-permission-but-request-served%s" li (st ()))
               else if not (pm_oracle_q !glob !user h.ph_perm h.ph_tys h.ph_q !inv ob) then
-                fail (Printf.sprintf "step=%d attrs: unpermitted-object-acted-on-or-forbidden-name-not-rejected" li)
+                fail (Printf.sprintf "step=%d attrs: unpermitted-object-acted-on-or-forbidden-name-not-rejected%s" li (st ()))
               else if not (pm_oracle_aq !glob !user !inv j [] (z_of_int 0)) then
                 fail (Printf.sprintf "step=%d attrs: unpermitted-joined-object-serialised" li)
               else if not (pm_oracle_aq !glob !user !inv [] e (z_of_int 0)) then
